@@ -68,21 +68,29 @@ func (my *taskCallback) runTaskOnce(ctx context.Context) {
 	var ctx1, cancel = context.WithTimeout(ctx, my.timeout)
 	defer cancel() // cancel()使得my.handler(ctx)有时机检测到已经超时了, 可以提前返回
 
-	var doneChan = make(chan struct{})
+	// 每次attempt使用独立的带缓冲chan传递结果: 只有runTaskOnce()所在的goroutine写my.result/my.err,
+	// 超时之后才结束的handler不会再覆盖后续attempt的结果
+	var doneChan = make(chan attemptResult, 1)
 	my.pool.sendInnerCallback(func() {
-		defer close(doneChan)
 		var result, err = my.handler(ctx1)
 
 		select {
-		case <-ctx1.Done(): // 代码走到这里的时候, 一定是超时了, 外面的runTaskOnce()主体逻辑一定执行完成了, 因此不设置my.result
+		case <-ctx1.Done(): // 代码走到这里的时候, 一定是超时了, 本次attempt按超时处理
+			doneChan <- attemptResult{nil, context.DeadlineExceeded}
 		default:
-			my.result, my.err = result, err
+			doneChan <- attemptResult{result, err}
 		}
 	})
 
 	select {
-	case <-doneChan:
+	case r := <-doneChan:
+		my.result, my.err = r.result, r.err
 	case <-ctx1.Done():
 		my.result, my.err = nil, context.DeadlineExceeded
 	}
+}
+
+type attemptResult struct {
+	result any
+	err    error
 }
